@@ -284,6 +284,9 @@ class APDCharacteristics:
     @adc_voltage_range.setter
     def adc_voltage_range(self, value: tuple[float, float]) -> None:
         """Set voltage range of the Analog-Digital Converter."""
+        if len(value) != 2:
+            raise ValueError("Voltage range must have length of 2.")
+
         self._adc_voltage_range = value
 
     @property
